@@ -211,6 +211,15 @@ def bodies(rng, tier):
     for n in (1, 2, 3, 5):
         for _ in range(150 if tier == "quick" else 2000):
             out.append(json.dumps([rng.choice(entries + [1, "x", None, [], {}]) for _ in range(n)]))
+    # entries that are themselves non-empty arrays: one invalid entry each (-32600, id null), never a nested batch
+    call = {"jsonrpc": "2.0", "id": 2, "method": "add", "params": [1, 2]}
+    note = {"jsonrpc": "2.0", "method": "add", "params": [1, 2]}
+    nested = [[1, 2], [call], [note], [call, note], [[call]], [{}]]
+    for arr in nested:
+        out.append(json.dumps([arr]))
+        out.append(json.dumps([call, arr]))
+        out.append(json.dumps([arr, note]))
+        out.append(json.dumps([note, arr, dict(call, id="z")]))
     valid = json.dumps({"jsonrpc": "2.0", "id": 7, "method": "add", "params": [1, 2]})
     for k in range(len(valid)):
         out.append(valid[:k])
